@@ -286,6 +286,8 @@ def run(prog, rep, tier):
     orientation_rules(rep, prog)
     dispatch_rules(rep, prog)
     chain_rules(rep, prog)
+    from .common import chain_test_rules
+    chain_test_rules(rep, prog)
     rep.require_count("PAT.entry", 2)
     rep.require_count("GATE", 6)
     rep.require_count("FILTER", 3)
